@@ -209,6 +209,10 @@ func SliceArgs(content string) (expr string, err error) {
 		if !ok {
 			return true
 		}
+		if int(decl.Lbrace) != len(prefix) {
+			// Not the templ_args literal, e.g. `[]any{a}.B{c}` is a literal whose type contains it.
+			return true
+		}
 		from = int(decl.Lbrace)
 		to = int(decl.Rbrace) - 1
 		for _, e := range decl.Elts {
